@@ -661,15 +661,35 @@ fn c09(cx: &mut Ctx) {
     let mut done = 0usize;
     let mut i = 0usize;
     while done < npos {
-        // sampled positions: some corpus roots, some playout positions
-        let b = if i < cx.corpus.boards.len() && i % 2 == 0 {
+        // sampled positions: corpus roots, playout positions with ep set, with castling rights, any
+        let b = if i % 4 == 0 && !cx.corpus.boards.is_empty() {
             cx.corpus.boards[(i * 7) % cx.corpus.boards.len()]
         } else {
-            let root = cx.root();
-            let plies = cx.rng.range(4, 60);
-            match playout(&mut cx.rng, &root, plies, Style::Tactical, 0).last() {
-                Some(s) => s.after,
-                None => root,
+            let mut pick: Option<Board> = None;
+            for _ in 0..60 {
+                let root = cx.root();
+                let plies = cx.rng.range(4, 80);
+                let steps = playout(&mut cx.rng, &root, plies, Style::Tactical, 0);
+                let want_ep = i % 4 == 1;
+                let want_cr = i % 4 == 2;
+                let cands: Vec<&Step> = steps
+                    .iter()
+                    .filter(|s| {
+                        (!want_ep || s.after.en_passant().is_some())
+                            && (!want_cr
+                                || s.after.castle_rights(Color::White).to_index()
+                                    + s.after.castle_rights(Color::Black).to_index()
+                                    > 0)
+                    })
+                    .collect();
+                if !cands.is_empty() {
+                    pick = Some(cands[cx.rng.below(cands.len())].after);
+                    break;
+                }
+            }
+            match pick {
+                Some(b) => b,
+                None => cx.root(),
             }
         };
         i += 1;
@@ -907,13 +927,19 @@ fn c12(cx: &mut Ctx) {
                 }
             }
         }
-        let mut rej = san_rejections(b, &ms);
+        let (amb, mut rej) = san_rejections(b, &ms);
         cx.rng.shuffle(&mut rej);
-        // ambiguity cases sort first in san_rejections only before shuffling; keep a bounded sample
+        // every under-disambiguated spelling, and a bounded sample of the unreachable ones
+        for t in amb.into_iter() {
+            let line = ops::san(b, &t, "!");
+            cx.sink.note_result(&line);
+            cx.sink.count("must_reject_ambiguous");
+            cx.sink.emit(line);
+        }
         for t in rej.into_iter().take(C12_REJECT_PER_POS) {
             let line = ops::san(b, &t, "!");
             cx.sink.note_result(&line);
-            cx.sink.count("must_reject_lines");
+            cx.sink.count("must_reject_unreachable");
             cx.sink.emit(line);
         }
     };
